@@ -351,6 +351,9 @@ func (b *planBuilder) build(p TxPlan) builtTx {
 		accNum, _, _ := b.c.AccountInfo(b.ctx, chain.K(p.From).Acc())
 		seq := b.seq(p.From)
 		price := new(big.Int).Add(b.floor, big.NewInt(p.CapOver))
+		if price.Sign() < 0 {
+			price = new(big.Int)
+		}
 		fee := new(big.Int).Mul(price, new(big.Int).SetUint64(p.Gas))
 		amt, _ := sdkmath.NewIntFromString(p.Amount)
 		msg := banktypes.NewMsgSend(chain.K(p.From).Acc(), chain.K(p.ToKey).Acc(), sdk.NewCoins(sdk.NewCoin(chain.Denom, amt)))
